@@ -76,7 +76,8 @@ class ParserState(Generic[StateT]):
             try:
                 action, arg = states[state][token.type]
             except KeyError:
-                expected = {s for s in states[state].keys() if s.isupper()}
+                # Terminals only. (Rule names always contain a lower-case letter; terminal names never do)
+                expected = {s for s in states[state].keys() if s == s.upper()}
                 raise UnexpectedToken(token, expected, state=self, interactive_parser=None)
 
             assert arg != end_state
